@@ -1,6 +1,6 @@
 (* Properties_C05.v — C05: per-node sequence numbers are consecutive in wire order. *)
 From Coq Require Import List NArith Bool.
-From LB Require Import Tables Framing NodeFlow NodeFlowProofs.
+From LB Require Import Tables Framing NodeFlow NodeFlowProofs MicroStep MicroProofs.
 Import ListNotations.
 Local Open Scope N_scope.
 
@@ -23,6 +23,29 @@ Proof.
     (tab_run_fifo es [] true now0 (plain_no_reset es H))).
 Qed.
 Print Assumptions C05_seq_single.
+
+(* Every lock-granularity schedule: any number of application/internal threads submit messages (one
+   submission in flight at a time: the send-order mutex, a lock fact checked on the generated lock
+   programs), each submission being three separately locked steps - allocate the number, ask the node
+   table, append to the packet buffer - and the receiver thread may process whole uplink messages
+   (answers, stall notices, releasing deferred traffic) between any two of these steps. For every such
+   schedule and every node, the sequence numbers of the messages handed to the packet buffer are
+   1, 2, ..., 255, 1, ... in buffer (= wire) order. *)
+Theorem C05_seq_all_schedules : forall ss s out, micro_run ms_init ss = Some (s, out) ->
+  forall a, consecutive_from 1 (map (msg_seq a) (to_node a out)).
+Proof. exact seq_all_schedules. Qed.
+Print Assumptions C05_seq_all_schedules.
+
+(* non-vacuity of the schedule theorem: the receiver releases a deferred message between the
+   allocation and the admission of the next submission *)
+Example C05_schedule_nonvacuous :
+  let ss := [MBegin (1,0,0) 22 [1]; MAdmit; MBuffer; MBegin (1,0,0) 23 [2]; MAdmit; MBuffer;
+             MBegin (1,0,0) 7 [3]; MUp [1] 147 0; MAdmit; MUp [1] 147 0; MBuffer] in
+  match micro_run ms_init ss with
+  | Some (_, out) => map (msg_seq [1]) (to_node [1] out) = [1; 2; 3]
+  | None => False
+  end.
+Proof. vm_compute. reflexivity. Qed.
 
 Theorem C05_seq_in_message : forall a3 sq ty data m, encode_msg a3 sq ty data = Some m ->
   nth (S (length (addr_bytes a3))) m 0 = sq /\ nth (S (S (length (addr_bytes a3)))) m 0 = ty.
